@@ -241,7 +241,7 @@ def proj_sound(s: sndscript.Sound) -> dict:
     return {'name': s.name, 'sounds': list(s.sounds), 'volume': [p_snd_val(v) for v in s.volume],
             'channel': s.channel.value if isinstance(s.channel, sndscript.Channel) else str(s.channel),
             'level': [p_snd_val(v) for v in s.level], 'pitch': [p_snd_val(v) for v in s.pitch],
-            'v2': bool(s.force_v2) or any(stacks), 'stacks': stacks}
+            'force': bool(s.force_v2), 'stacks': stacks}
 
 
 def build_sound(p) -> sndscript.Sound:
@@ -250,7 +250,7 @@ def build_sound(p) -> sndscript.Sound:
         p['name'], list(p['sounds']), tuple(b_snd_val(v, 'vol') for v in p['volume']), chan,
         tuple(b_snd_val(v, 'lvl') for v in p['level']), tuple(b_snd_val(v, 'pitch') for v in p['pitch']),
         b_stack('start_stack', p['stacks'][0]), b_stack('update_stack', p['stacks'][1]), b_stack('stop_stack', p['stacks'][2]),
-        p['v2'],
+        p['force'],
     )
 
 
